@@ -15,12 +15,20 @@ type BiCase struct {
 	ID any    `json:"id"`
 	F  string `json:"f"`
 	A  []any  `json:"a"`
+	// Ring: the arguments are symbolic int64 values ["w", a, b] (spec/Ring64.tla); numeric results are reported the same way
+	Ring bool `json:"ring,omitempty"`
 }
 
 var cmpPred = map[string]string{"lt": ":lt", "le": ":le", "gt": ":gt", "ge": ":ge"}
 
 func runBuiltin(c BiCase) (ev map[string]any) {
-	ev = map[string]any{"id": c.ID, "f": c.F, "a": c.A, "err": false, "got": []any{"none"}, "detail": ""}
+	ev = map[string]any{"id": c.ID, "f": c.F, "a": c.A, "err": false, "got": []any{"none"}, "detail": "", "ring": c.Ring}
+	fromConst := func(k ast.Constant) any {
+		if c.Ring && k.Type == ast.NumberType {
+			return mgjson.RingOf(k.NumValue)
+		}
+		return mgjson.FromConst(k)
+	}
 	defer func() {
 		if r := recover(); r != nil {
 			ev["err"], ev["detail"], ev["panic"] = true, fmt.Sprint("panic: ", r), true
@@ -54,7 +62,7 @@ func runBuiltin(c BiCase) (ev map[string]any) {
 			ev["err"], ev["detail"] = true, err.Error()
 			return
 		}
-		ev["got"] = mgjson.FromConst(res)
+		ev["got"] = fromConst(res)
 		return
 	}
 	var args []ast.BaseTerm
@@ -66,7 +74,7 @@ func runBuiltin(c BiCase) (ev map[string]any) {
 		ev["err"], ev["detail"] = true, err.Error()
 		return
 	}
-	ev["got"] = mgjson.FromConst(res)
+	ev["got"] = fromConst(res)
 	return
 }
 
